@@ -5,6 +5,19 @@
 
 use crate::ir::*;
 
+/// Conditions must keep a variable leaf: the checker legitimately prunes the
+/// dead branch of a constant condition, which a shrunk design must not rely on.
+fn has_var_leaf(e: &Expr) -> bool {
+    match e {
+        Expr::Ref(_) | Expr::Local(..) => true,
+        Expr::Const(..) => false,
+        Expr::Concat(v) | Expr::Call(_, v) => v.iter().any(has_var_leaf),
+        Expr::Not(a) | Expr::Neg(a) | Expr::Red(_, a) | Expr::Shl(a, _) | Expr::Shr(a, _) => has_var_leaf(a),
+        Expr::Bit(_, a, b) | Expr::Arith(_, a, b) | Expr::ArithCtx(_, a, b, _) | Expr::Cmp(_, a, b) => has_var_leaf(a) || has_var_leaf(b),
+        Expr::Mux(c, a, b) => has_var_leaf(c) || has_var_leaf(a) || has_var_leaf(b),
+    }
+}
+
 fn expr_variants(e: &Expr, funcs: &[Func], out: &mut Vec<Expr>) {
     let w = width(e, funcs);
     if !matches!(e, Expr::Const(..)) {
@@ -95,7 +108,15 @@ fn expr_variants(e: &Expr, funcs: &[Func], out: &mut Vec<Expr>) {
         Expr::Mux(c, a, b) => {
             out.push((**a).clone());
             out.push((**b).clone());
-            wrap(out, c, &|v| Expr::Mux(Box::new(v), a.clone(), b.clone()));
+            {
+                let mut vs = Vec::new();
+                expr_variants(c, funcs, &mut vs);
+                for v in vs {
+                    if has_var_leaf(&v) {
+                        out.push(Expr::Mux(Box::new(v), a.clone(), b.clone()));
+                    }
+                }
+            }
             wrap(out, a, &|v| Expr::Mux(c.clone(), Box::new(v), b.clone()));
             wrap(out, b, &|v| Expr::Mux(c.clone(), a.clone(), Box::new(v)));
         }
@@ -139,7 +160,7 @@ fn stmts_variants(ss: &[Stmt], funcs: &[Func], out: &mut Vec<Vec<Stmt>>) {
                 let mut vs = Vec::new();
                 expr_variants(c, funcs, &mut vs);
                 for x in vs {
-                    if matches!(x, Expr::Const(..)) {
+                    if !has_var_leaf(&x) {
                         continue;
                     }
                     let mut v = ss.to_vec();
@@ -245,7 +266,7 @@ fn candidates(d: &Design) -> Vec<Design> {
             let mut rs = Vec::new();
             expr_variants(&f.ret, &m.funcs, &mut rs);
             for v in rs {
-                if matches!(v, Expr::Const(..)) {
+                if !has_var_leaf(&v) {
                     continue;
                 }
                 let mut c = d.clone();
@@ -305,7 +326,7 @@ fn visit_stmts(ss: &mut [Stmt], fe: &mut dyn FnMut(&mut Expr), ft: &mut dyn FnMu
     }
 }
 
-fn visit_module(m: &mut Module, fe: &mut dyn FnMut(&mut Expr), fp: &mut dyn FnMut(&mut Place)) {
+pub fn visit_module(m: &mut Module, fe: &mut dyn FnMut(&mut Expr), fp: &mut dyn FnMut(&mut Place)) {
     for f in m.funcs.iter_mut() {
         visit_stmts(&mut f.body, fe, &mut |_| {});
         visit_expr(&mut f.ret, fe);
@@ -337,6 +358,26 @@ fn visit_module(m: &mut Module, fe: &mut dyn FnMut(&mut Expr), fp: &mut dyn FnMu
 fn cleanup(d: &Design) -> Design {
     let mut d = d.clone();
     for m in d.modules.iter_mut() {
+        // empty always_comb blocks left behind by statement removal
+        let keep: Vec<bool> = m.items.iter().map(|it| !matches!(it, Item::Comb(ss) if ss.is_empty())).collect();
+        let map: Vec<usize> = {
+            let mut k = 0;
+            keep.iter()
+                .map(|u| {
+                    let r = k;
+                    if *u {
+                        k += 1;
+                    }
+                    r
+                })
+                .collect()
+        };
+        let mut idx = 0;
+        m.items.retain(|_| {
+            idx += 1;
+            keep[idx - 1]
+        });
+        m.order = m.order.iter().filter(|i| keep[**i]).map(|i| map[*i]).collect();
         // functions
         let mut used = vec![false; m.funcs.len()];
         visit_module(
